@@ -86,6 +86,12 @@ class C12(Cfg):
             if verdict in ("none", "stopped"): continue
             if not all(room_equal.get(r, True) for r in room_equal):
                 continue          # the precondition "same room definition" does not hold (a C10 matter)
+            # the precondition "same prior versions": rows outside any room are not synchronised, so a peer does
+            # not hold the previous version of a row that was room-less before this operation
+            concerned = {a.get("h")} | {t.split(":")[0][1:] for t in a.get("c", "").split("+") if t[:1] == "h"}
+            if k == "delref": concerned = {a.get("h")}
+            if any(before.get(h) and before[h][1] == "-" for h in concerned):
+                continue
             if local == "ok" and verdict in ("refuse", "partial"):
                 sig = "local-accepts-peer-refuses"
                 rows_refused = [x for x in refused if x.startswith("n") or x.startswith("stale")]
